@@ -29,6 +29,29 @@ class BatchDomain(TaintDomain):
 
     def xfer(self, interp, op, info, anns, recv, args, kwargs, node):
         out = set(anns)
+        rng = info.get("rng")
+        if rng:
+            active = True
+            if rng == "mode":
+                # F.dropout(input, p=0.5, training=True, inplace=False): the default draws a mask
+                tr = kwargs.get("training", args[1] if len(args) > 1 and recv is not None else (args[2] if len(args) > 2 else None))
+                pr = kwargs.get("p", args[0] if args and recv is not None else (args[1] if len(args) > 1 else None))
+                if tr is not None and tr.kind == "const" and tr.data is False:
+                    active = False
+                # training=self.training under the evaluation-mode scenario
+                tnode = next((k.value for k in getattr(node, "keywords", []) if k.arg == "training"), None)
+                if tnode is None and isinstance(node, ast.Call):
+                    pos = 1 if recv is not None and not (isinstance(node.func, ast.Attribute) and isinstance(node.func.value, ast.Name) and node.func.value.id in ("F", "torch")) else 2
+                    tnode = node.args[pos] if len(node.args) > pos else None
+                if tnode is not None and getattr(interp, "assume", {}).get(norm_text(tnode)) is False:
+                    active = False
+                if pr is not None and pr.kind == "const" and pr.data == 0:
+                    active = False
+            if active:
+                fi = interp.frame.func
+                site = ("RNG", fi.module.relpath, fi.qualname, norm_text(stmt_of(node) or node)[:90])
+                self.sites.setdefault(site, (fi, node, op))
+                out.add(site)
         if info.get("red") and "IN" in anns and recv is not None and recv.kind in ("tensor", "top") and _reduces_batch(op, recv, args, kwargs):
             fi = interp.frame.func
             site = ("BRED", fi.module.relpath, fi.qualname, norm_text(stmt_of(node) or node)[:90])
@@ -347,6 +370,30 @@ def rows_rule(ctx):
     return res
 
 
+def rng_rule(ctx):
+    """BM-RNG: in evaluation mode no fresh random draw reaches a result of a given-rows entry
+    point: a dropout mask or noise drawn per call makes a row's result depend on the call (its
+    position in the batch, the generator state), not on the row."""
+    p = ctx.p
+    dom, it, per_entry = ctx.shared("batch", lambda: analyse(p))
+    res = RuleResult("BM-RNG", "in evaluation mode no random draw (functional dropout with training left at its default, rand/randn/bernoulli/multinomial) reaches a result of forward / inverse / log_prob")
+    seen = set()
+    for e, r in per_entry:
+        bad = False
+        for leaf in _leaves(r):
+            for l in leaf.ann:
+                if isinstance(l, tuple) and l[0] == "RNG":
+                    bad = True
+                    if l in seen:
+                        continue
+                    seen.add(l)
+                    fi, node, op = dom.sites[l]
+                    res.fail(Finding("BM-RNG", fi.module, fi.qualname, stmt_of(node) or node, "`%s` draws random numbers in evaluation mode and the draw reaches the result of %s: rows are no longer a function of their own values (batch result != row-by-row result)" % (op, e.label)))
+        if not bad:
+            res.ok("%s: result free of evaluation-time randomness" % e.label, nontrivial=False)
+    return res
+
+
 def eval_stats_rule(ctx):
     r = batchnorm_flow_rule(ctx)
     r.rule = "BM-EVAL"
@@ -360,7 +407,7 @@ def eval_stats_rule(ctx):
 
 register(
     "C12",
-    [reduce_rule, mask_rule, rows_rule, eval_stats_rule],
+    [reduce_rule, mask_rule, rows_rule, eval_stats_rule, rng_rule],
     "BM-REDUCE: taint analysis of every given-rows entry point (forward/inverse of every Transform, log_prob/_log_prob/"
     "transform_to_noise of every Distribution, forward/log_prob of the other modules, the spline functions) under the scenario "
     "self.training == False: a reduction with no dim or a constant dim containing 0 (and sum_except_batch(num_batch_dims=0)) of "
